@@ -151,6 +151,30 @@ pub fn run(ctx: &mut Ctx) {
         ctx.note(note);
     }
 
+    // larger D-sets from the crate's own D-set generator (any valid D-set is a legitimate input; each is
+    // re-validated by the table model), with the trivial and one pseudo-random branching assignment
+    ctx.layer("generator-dsets");
+    {
+        let lo = t.pick(6usize, 8usize);
+        let hi = t.pick(12usize, 13usize);
+        let mut more: Vec<OrbCase> = vec![];
+        for (k, s) in rust_dsymbols::generators::dset_generators::DSets::new(2, hi).enumerate() {
+            let ds = DS::from_dset(&s).dset();
+            if ds.size <= lo || !ds.ops_are_involutions() || !ds.is_connected() {
+                continue;
+            }
+            let reps = crate::gen::dsyms::orbit_reps(&ds);
+            let mut h = (k as u64 + 1).wrapping_mul(0x9e37_79b9_7f4a_7c15);
+            let vs: Vec<usize> = reps.iter().map(|_| { h ^= h >> 29; h = h.wrapping_mul(0xbf58_476d_1ce4_e5b9); h ^= h >> 32; 1 + (h % 4) as usize }).collect();
+            let n = ds.size as u32;
+            let unit = |i: u32| ((i as u64 * (1u64 << 32)) / n.max(1) as u64) as u32;
+            let swaps: Vec<(u32, u32)> = (0..n / 2).map(|i| (unit(i), unit(n - 1 - i))).collect();
+            more.push(OrbCase { ds: crate::gen::dsyms::assign(&ds, &reps, &vs), swaps: swaps.clone(), sheets: 0, pick: k as u32 });
+            more.push(OrbCase { ds, swaps, sheets: 0, pick: k as u32 });
+        }
+        let nm = more.len();
+        ctx.run_par(&SUB_ORB, more, Some(&format!("{} symbols: every D-set with {}..={} chambers listed by the crate's D-set generator with all v = 1 and with one pseudo-random assignment v <= 4", nm, lo + 1, hi)));
+    }
     ctx.layer("random");
     let n = t.pick(40_000u32, 2_000_000u32);
     let sw = || prop::collection::vec((any::<u32>(), any::<u32>()), 0..8);
